@@ -127,7 +127,7 @@ Definition layout (k : kind) : list field :=
 (* `if buf.Len() < N` guard of each case of handleRecvQueue *)
 Definition min_len (k : kind) : Z :=
   match k with
-  | KPid => 30 | KName => 18 | KNameCache => 28 | KAlias => 49 | KEvent => 28 | KEventCache => 28 | KExit => 26
+  | KPid => 33 | KName => 26 | KNameCache => 28 | KAlias => 49 | KEvent => 28 | KEventCache => 28 | KExit => 26
   | KReqPid => 50 | KReqName => 43 | KReqNameCache => 43 | KReqAlias => 66 | KResponse => 49 | KResponseError => 50
   | KTermPid => 18 | KTermName => 12 | KTermNameCache => 12 | KTermAlias => 34 | KTermEvent => 12 | KTermEventCache => 12
   | KAny => 9
@@ -301,16 +301,16 @@ Definition frame_len (buf : bytes) : Z := de (firstn 4 (skipn 2 buf)) 0.
 
 (* one pass of the loop of read() over the bytes held so far:
      if buf.Len() < expect(8) -> read more
+     l < 8 -> error "declared length is shorter than the header" (since cda3993; before that serve()
+              indexed out of range): Bad, the link is closed; hostile input, C16
      l > node_maxmessagesize (if set) -> error
      buf.Len() < l -> read more
-     else  tail := buf.B[l:]; buf.B = buf.B[:l]
-   A length field below 8 makes serve()/handleRecvQueue index out of range (the un-recovered
-   serve goroutine takes the process down for l <= 6): modelled as Bad; hostile input, C16. *)
+     else  tail := buf.B[l:]; buf.B = buf.B[:l] *)
 Definition read_step (maxsize : Z) (buf : bytes) : rd :=
   if blen buf <? 8 then NeedMore
   else let l := frame_len buf in
-       if (0 <? maxsize) && (maxsize <? l) then TooLong
-       else if l <? 8 then Bad
+       if l <? 8 then Bad
+       else if (0 <? maxsize) && (maxsize <? l) then TooLong
        else if blen buf <? l then NeedMore
        else Frame (firstn (Z.to_nat l) buf) (skipn (Z.to_nat l) buf).
 
